@@ -125,6 +125,10 @@ def transfer_forms():
     for pname, pb in (('cs', b'\x2e'), ('ds', b'\x3e'), ('es', b'\x26'), ('fs', b'\x64')):
         out += [('jcc4.rel8.seg', pb + b'\x74', 8, 32), ('jcc5.rel32.seg', pb + b'\x0f\x85', 32, 32), ('jmp.rel8.seg', pb + b'\xeb', 8, 32),
                 ('jmp.rel32.seg', pb + b'\xe9', 32, 32), ('call.rel32.seg', pb + b'\xe8', 32, 32), ('loop.seg', pb + b'\xe2', 8, 32)]
+    # the other legitimate configuration: a 16-bit code segment (dis(..., attrib={'opmode': u16})), where 66 selects 32-bit operands
+    out += [('m16:jmp.rel16', b'\xe9', 16, 16), ('m16:jmp.rel32', b'\x66\xe9', 32, 32), ('m16:jmp.rel8', b'\xeb', 8, 16), ('m16:jmp.rel8.o32', b'\x66\xeb', 8, 32),
+            ('m16:call.rel16', b'\xe8', 16, 16), ('m16:call.rel32', b'\x66\xe8', 32, 32), ('m16:jcc4.rel8', b'\x74', 8, 16), ('m16:jcc4.rel8.o32', b'\x66\x74', 8, 32),
+            ('m16:jcc5.rel16', b'\x0f\x85', 16, 16), ('m16:jcc5.rel32', b'\x66\x0f\x85', 32, 32), ('m16:loop', b'\xe2', 8, 16)]
     return out
 
 
@@ -142,7 +146,11 @@ def part_b(sh, forms, offsets, seed):
                 fam = re.sub(r'jcc[0-9a-f]', 'jcc', name)
                 try:
                     bs = bin_stream(Virt(off, enc), off)
-                    ins = x86mnemo.dis(bs)
+                    if name.startswith('m16:'):
+                        from miasmx.arch.ia32_reg import x86_afs
+                        ins = x86mnemo.dis(bs, {'opmode': x86_afs.u16})
+                    else:
+                        ins = x86mnemo.dis(bs)
                 except Exception as e:
                     sh.case((enc, off), True, cls='B:' + fam)
                     sh.violation('decode-at-offset-raises:%s/%s' % (type(e).__name__, fam), 'dis(%s) at offset 0x%x raised %r' % (enc.hex(), off, e), wit)
@@ -174,7 +182,7 @@ def part_b(sh, forms, offsets, seed):
                 if not (isinstance(dst, list) and len(dst) == 1 and isinstance(dst[0], int) or hasattr(dst[0], '__int__')) or int(dst[0]) != want:
                     sh.violation('target/%s/%s' % (fam, offclass), '%s at 0x%x (disp %d): getdstflow()=%s, architectural target 0x%x' % (
                         enc.hex(), off, d, [hex(int(x)) if hasattr(x, '__int__') else x for x in dst] if isinstance(dst, list) else dst, want), wit)
-                exp = 'end' if name.startswith('jmp') else 'split'
+                exp = 'end' if name.replace('m16:', '').startswith('jmp') else 'split'
                 bk, sp, dt = fl
                 if exp == 'end' and not (bk and not sp) or exp == 'split' and not (bk and sp and dt):
                     sh.violation('classification/%s' % fam, '%s: breakflow=%s splitflow=%s dstflow=%s' % (enc.hex(), bk, sp, dt), wit)
